@@ -1,12 +1,13 @@
 from corr import kern_family
+from checks import _sym
 from oracles import c01 as oracle
 
-GEN = ["Const", "Tol"]
-LEAN_TARGETS = ["MagpyVerif.Props.C01"]
-PROPS = ["MagpyVerif.Props.C01"]
+GEN = ["Const", "Tol"] + _sym.GEN
+LEAN_TARGETS = ["MagpyVerif.Props.C01"] + _sym.LEAN_TARGETS
+PROPS = ["MagpyVerif.Props.C01"] + _sym.PROPS
 NOT_SHOWN = {
  "C01": ["the vertices form of Polyline (current_vertices_field: repeat/reshape/sum over consecutive segments) is not modelled; single segments are proved equal to the Biot-Savart integral",
-         "Cuboid, Triangle/Tetrahedron/TriangularMesh closed forms = their surface integrals (iterated one-variable integrals; not formalised)",
+         "Triangle/Tetrahedron/TriangularMesh closed forms = their surface integrals (iterated one-variable integrals; not formalised); Cuboid is proved off the six face planes (on the extended face planes: oracle only)",
          "Circle, Cylinder, CylinderSegment: need Bulirsch cel/el3 (Legendre elliptic integral) theory, absent from Mathlib v4.33",
          "all of the above are checked against numerical quadrature of the defining integral by the oracle (rel. 2e-6 outside, 2e-4 inside)"],
  "C13": ["Cuboid = mesh = tetrahedra; Cylinder = sum of segments; partition additivity of magnets; Polyline -> Circle: equalities between different closed forms, oracle only"],
@@ -16,6 +17,7 @@ NOT_SHOWN = {
 
 
 def run(ctx, model_ok):
+    _sym.run(ctx, ctx.scale(140, 4000))
     if ctx.driver_ok:
         st = kern_family.run_stream(ctx, ctx.scale(400, 20000))
         ctx.cov["traces_validated_against_impl"] = st["rows"]
